@@ -528,7 +528,7 @@ fn main() {
         }
     });
     let mut ev = ev;
-    if args.only.is_none() && args.shard == 0 {
+    if args.blocks() {
         query_storage_checks(&mut ev);
     }
     ev.finish(
